@@ -3,13 +3,16 @@
    reference says about them; the harness feeds exactly these inputs to the real compile_lvs / Checker
    and compares.  One printed line per input.
 
-   Mode "schemas"   well-formed two/three-rule schemas over a tiny vocabulary (every combination):
+   Mode "schemas"   well-formed two/three-rule schemas over a tiny vocabulary (every combination; #r1 may constrain
+                    the pattern x that only a rule referring to it contains), and the four-to-six-rule schemas of
+                    SharedEnd (a definition written like one chain of a rule that has two, signers of their own):
                     <<"E", index, rules, [name index |-> Match], {}>>
    Mode "checks"    the same family: <<"E", index, rules, <<>>, set of <<pkt index, key index>> with Check>>
    Mode "laws"      the same family, design check of the reference itself (stage A):
                     <<"L", index, set of violated laws, set of witnesses seen>>
    Mode "illformed" two-rule schemas that may refer to undefined / temporary / cyclic rules and signers
-                    and to patterns that occur nowhere:
+                    and to patterns that occur nowhere; three-rule schemas where the signer list that may be bad
+                    belongs to a SECOND definition of #r1 (TwinBad):
                     <<"W", index, rules, WellFormed, why, NoSelfSigner>>
    Mode "trees"     the small trees of LvsTree (sane ones and every single parent-link corruption):
                     <<"T", index, tree, Sane, why, [name index |-> walk result], CompilerShaped,
